@@ -53,7 +53,7 @@ CLAIMED.update({
 CLAIMED.update({
  "C18": dict(engine="E6 feature-matrix differential", ref="5/C18", technique="differential property-based testing: one proptest program stream executed by a persistent process per supported feature set, event-trace hashes compared, shrinking across all processes",
    text="Each generated program (queues, actors, timers, Rets, drop handlers, shutdown) is executed by 20 vrun binaries - the 18 feature sets printed by /repo/run-feature-combinations (regenerated at check time), the default set and logger alone - and the hash and length of the full observable event trace must be identical in all of them; each process also runs the lock-step monitor. A failing program is shrunk against all processes and replayed with the first diverging trace line shown.",
-   note="Matrix builds use a reduced shape family (24 closure shapes). Programs avoid deferring after the Stakker is gone (documented to behave differently per deferrer). Feature sets outside upstream's supported list are not run. Trusted: rustc/std, proptest, the VM/monitor."),
+   note="Matrix builds use a reduced shape family (32 closure shapes, dense just below the 1, 2 and 4 KiB buffer sizes). Nothing after the Stakker is gone is part of the compared trace (documented to behave differently per deferrer); the DropStakker operation first releases every handle the harness holds, so live actors and queued terminations are released inside Stakker::drop. Feature sets outside upstream's supported list are not run. Trusted: rustc/std, proptest, the VM/monitor."),
  "C20": dict(engine="E6 feature-matrix differential (logger sets)", ref="5/C20", technique="property-based testing (proptest actor programs) in every feature set that includes logger, with a recording logger and a reference reading of LogFilter as oracle",
    text="Actor programs of C02-C04 shape run in the 7 logger feature sets with a recording logger under generated filters (from_str/all/|/new, changed mid-program): each creation must produce exactly one Open record iff Open is enabled, with a fresh non-zero id equal to actor.id() and the creator's id as parent; each effective termination exactly one Close record iff enabled, with the marker and message matching the StopCause delivered to the notifier; after every run all 9 levels are probed with core.log and log_check against the reference reading.",
    note="The logger callback only records. Trusted: rustc/std, proptest, the harness's reading of the LogFilter documentation."),
